@@ -127,11 +127,13 @@ void enccfg_json(const enccfg_t *c, char *out, size_t n){
     sig_name(c->sig),(unsigned long long)c->sigseed,c->nsamples,c->chunk,c->lazy);
 }
 static __thread int g_enc_direct=0;   /* per thread: encoders run concurrently in the C18 driver */
+static __thread long g_enc_probe=0, g_enc_probe_bad=0;
 static void enc_drain(vorbis_dsp_state *vd, vorbis_block *vb, pktlist_t *pk){
   ogg_packet op;
   if(g_enc_direct){ while(vorbis_analysis_blockout(vd,vb)==1){ if(vorbis_analysis(vb,&op)==0) pktlist_push(pk,&op); } return; }
   while(vorbis_analysis_blockout(vd,vb)==1){
-    vorbis_analysis(vb,NULL);
+    if(g_enc_probe>0 && (g_enc_probe++%3)==0){ if(vorbis_analysis(vb,&op)!=OV_EINVAL) g_enc_probe_bad++; }   /* refused; the application carries on with the same block */
+    else vorbis_analysis(vb,NULL);
     vorbis_bitrate_addblock(vb);
     while(vorbis_bitrate_flushpacket(vd,&op)) pktlist_push(pk,&op);
   }
@@ -187,6 +189,7 @@ int enc_run(const enccfg_t *c, encres_t *r){
   vorbis_analysis_init(&vd,&vi);
   vorbis_block_init(&vd,&vb);
   g_enc_direct= c->direct && !r->managed && c->mode!=ENC_MANAGED && c->mode!=ENC_INIT_ABR;
+  g_enc_probe= (c->direct_probe && r->managed)? 1:0; g_enc_probe_bad=0;
   {
     ogg_packet h1,h2,h3;
     vorbis_analysis_headerout(&vd,&vc,&h1,&h2,&h3);
@@ -216,7 +219,7 @@ int enc_run(const enccfg_t *c, encres_t *r){
     }
     vorbis_analysis_wrote(&vd,0);
     enc_drain(&vd,&vb,&r->pk);
-    r->ncalls_wrote=calls; r->nsubmitted=done;
+    r->ncalls_wrote=calls; r->nsubmitted=done; r->direct_probe_bad=g_enc_probe_bad; g_enc_probe=0;
   }
   vorbis_block_clear(&vb); vorbis_dsp_clear(&vd); vorbis_comment_clear(&vc); vorbis_info_clear(&vi);
   return 0;
